@@ -20,7 +20,7 @@ RULE = ('Cases: initial PVA (|lat|<=85, any attitude), altitude mode, Integrator
         '{1,2,3,4,8}, an increments table of up to 48 rows (irregular dt, |theta|<=0.5 rad, |dv|<=5 m/s, '
         'zero rows included) and a generated list of up to 30 operations: integrate(k rows) with k from '
         '{0, 1, up-to-capacity-1, exactly-to-capacity, capacity+1, random}, predict(next row | scaled next '
-        'row), get_pva, get_time, set_pva(generated state, named or unnamed). Model = fresh '
+        'row), get_pva, get_time, set_pva(generated state | the current state itself | a position/velocity-only change of it; named or unnamed). Model = fresh '
         'single-shot integrator per segment; bitwise comparison of values, index and return values after '
         'every operation. Non-trivial = history with a chunk straddling a buffer-growth boundary, or '
         'predict followed by integrate of the same row, or set_pva followed by integration, or an empty '
@@ -40,7 +40,8 @@ def op_strategy():
                                   'scale': st.sampled_from([1.0, 1.0, 0.5, 0.25, 0.0, 0.999])})
     return st.one_of(integ, integ, integ, pred, pred, st.just({'op': 'get_pva'}), st.just({'op': 'get_time'}),
                      st.fixed_dictionaries({'op': st.just('set_pva'), 'pva': gen.pva_strategy(),
-                                            'permute': st.booleans()}))
+                                            'permute': st.booleans(),
+                                            'source': st.sampled_from(['generated', 'generated', 'current', 'current_posvel'])}))
 
 
 def case_strategy(modes=(True, False)):
@@ -159,7 +160,19 @@ class Machine:
                 self.on_get_time(ret)
             elif name == 'set_pva':
                 t = self.integ.get_time()
-                pva = gen.to_pva(op['pva'], t)
+                src = op.get('source', 'generated')
+                if src == 'generated':
+                    pva = gen.to_pva(op['pva'], t)
+                else:
+                    # overwrite with the current state itself / a position-velocity-only fix (attitude bit-equal)
+                    pva = self.integ.get_pva().copy()
+                    if src == 'current_posvel':
+                        pva['lat'] += 1e-4
+                        pva['alt'] -= 2.5
+                        pva['VN'] += 0.5
+                        pva['VE'] -= 0.25
+                    if len(self.integ.trajectory) > 1:
+                        self.flags.add('set_pva_same_attitude_on_integrated_row')
                 pva = self.adjust_set_pva(pva)
                 if op['permute']:
                     pva.name = None       # the name of the supplied Series must not matter
@@ -281,7 +294,8 @@ class ModelMachine(Machine):
 def run_history(case, ctx):
     m = ModelMachine(case, ctx)
     m.run()
-    nt = {'straddles_capacity', 'predict_then_integrate', 'set_pva_then_integrate', 'empty_between_nonempty'}
+    nt = {'straddles_capacity', 'predict_then_integrate', 'set_pva_then_integrate', 'empty_between_nonempty',
+          'set_pva_same_attitude_on_integrated_row'}
     ctx.mark_nontrivial(bool(m.flags & nt))
 
 
